@@ -180,6 +180,7 @@ class RxHarness(Harness):
         self.delivered = 0
         self.bad_seen = 0
         self.amb_seen = 0
+        self.breaks_seen = 0
         self.late = {}
         if cap:
             self.cap = cap
@@ -282,6 +283,7 @@ class RxHarness(Harness):
             line2, gap2, bad2 = ("B", m + 1), 0, 0
         elif ch[0] == "r":
             line2, gap2, bad2 = None, 1, 1
+            self.breaks_seen += 1
         else:
             line2, gap2, bad2 = None, min(gap + 1, 2), bad
         flags = 0
@@ -292,7 +294,7 @@ class RxHarness(Harness):
         return (line2, tuple(pend2), gap2, bad2, nfr + 1 if (self.max_frames is not None and ch[0] in ("f", "b")) else nfr), None, flags
 
     def cover_report(self):
-        return dict(deliveries=self.delivered, bad_stop_frames=self.bad_seen, samples_on_an_edge=self.amb_seen,
+        return dict(deliveries=self.delivered, bad_stop_frames=self.bad_seen, samples_on_an_edge=self.amb_seen, breaks=self.breaks_seen,
                     delivery_minus_frame_end=sorted(self.late))
 
     def vacuity(self):
